@@ -4,3 +4,7 @@ cd "$(dirname "$(readlink -f "$0")")"
 mkdir -p bin
 cargo build -q -p simalloc --target-dir target/simalloc 2>&1
 cp target/simalloc/debug/simalloc bin/simalloc
+# the same harness without debug assertions (release profile): code guarded by
+# cfg!(debug_assertions) / debug_assert! in the code under test takes its other path
+cargo build -q --profile nodebug -p simalloc --target-dir target/simalloc 2>&1
+cp target/simalloc/nodebug/simalloc bin/simalloc-release
